@@ -121,7 +121,7 @@ CHECKS['C06'] = {
     'level': 'proof',
     'explanation': 'admitted(row) := exists a non-NULL column; the contracts say !admitted ==> output empty and *final(self) == *old(self).',
     'trusted': COMMON_TRUST + ['Row::any_result stand-in (r == exists non-NULL column)'],
-    'unproved': ['Row::any_result body (Iterator::any)', 'join branches'],
+    'unproved': ['join branches of execute_select / execute_aggregate (closures capturing &mut: not supported by Verus)'],
 }
 CHECKS['C11'] = {
     'verus_units': ['engine', 'aggdispatch', 'aggresult'],
